@@ -73,13 +73,13 @@ Lemma invoke_inv : forall i rest m, nth_error es i = Some m ->
   Inv (ms_p st') /\ (forall p, In p (ms_trace st') -> Inv p) /\
   match r with
   | None => True
-  | Some (None, e) => e = ENil /\ pdb (ms_p st') = spec i (pdb (ms_p st'))
+  | Some (None, e) => (e = ENil /\ pdb (ms_p st') = spec i (pdb (ms_p st'))) \/ e = EOther
   | Some (Some t, e) => e = ENil /\ good i (pdb (ms_p st')) (Some t) /\ cancelled (ms_clk st') = true
   end.
 Proof.
   intros i rest m Hm. induction f; intros st tok st' r Hp HI HT Hg H; simpl in H.
   - inversion H; subst. refine (conj _ (conj _ (conj _ (conj _ _)))); auto.
-  - destruct (mig_step m (pdb (ms_p st)) tok (cancelled (ms_clk st))) as [db' o] eqn:Es.
+  - destruct (mig_step m (pdb (ms_p st)) tok _) as [db' o] eqn:Es.
     pose proof (step_ok i m Hm _ _ _ _ _ Hg Es) as [S1 [S2 S3]].
     assert (HI' : Inv (with_db db' (ms_p st))).
     { destruct HI as [I1 I2]. unfold Inv, pending in *. simpl. rewrite Hp in *. simpl in *.
@@ -87,12 +87,15 @@ Proof.
     destruct (cancelled (ms_clk st)) eqn:Ec.
     + inversion H; subst; clear H. simpl. refine (conj _ (conj _ (conj _ (conj _ _)))); auto.
       * intros p [Hq|Hq]; subst; auto.
-      * destruct o; try contradiction; [split|split;[|split]]; auto.
+      * destruct o; try contradiction; [left; split|split;[|split]]; auto.
         -- rewrite S1. exact S3.
-        -- destruct (ms_clk st) as [[|k]|]; simpl in *; try discriminate; auto.
-    + destruct o; try contradiction.
+        -- destruct (ms_clk st) as [[[|k]|] fl]; unfold cancelled, tick in *; simpl in *; try discriminate; auto.
+    + destruct (faulted (ms_clk st)) eqn:Ef.
+      { inversion H; subst; clear H. simpl. refine (conj _ (conj _ (conj _ (conj _ _)))); auto.
+        intros p [Hq|Hq]; subst; auto. }
+      destruct o; try contradiction.
       * inversion H; subst; clear H. simpl. refine (conj _ (conj _ (conj _ (conj _ _)))); auto;
-          try (intros p [Hq|Hq]; subst; auto); try (split; auto; rewrite S1; exact S3).
+          try (intros p [Hq|Hq]; subst; auto); try (left; split; auto; rewrite S1; exact S3).
       * apply IHf in H; simpl; auto.
         intros p [Hq|Hq]; subst; auto.
 Qed.
@@ -117,10 +120,14 @@ Proof.
     simpl in Ei. destruct Ei as [C1 [C2 [I1 [T1 Hr]]]].
     destruct r1 as [[t' e]|]. 2:{ inversion H; subst. refine (conj _ (conj _ _)); auto. discriminate. }
     assert (Hp1 : pending (ms_p st1) = i :: rest) by (unfold pending in *; rewrite C1; auto).
-    unfold after_migrate in H. destruct t' as [t|]; destruct Hr as [He Hr]; subst e.
+    unfold after_migrate in H. destruct t' as [t|].
     + (* resume token saved *)
+      destruct Hr as [He Hr]; subst e.
       destruct Hr as [Hr Hc].
-      cbn [negb] in H. simpl in H.
+      cbn [negb] in H.
+      destruct (faulted (ms_clk st1)).
+      { inversion H; subst. simpl. refine (conj _ (conj _ _)); auto. discriminate. }
+      simpl in H.
       assert (I2 : Inv (save_inter i t (ms_p st1))).
       { destruct I1 as [A B]. unfold Inv, pending in *. simpl. rewrite Hp1 in *. split; auto.
         destruct B as [B1 B2]. split.
@@ -133,8 +140,13 @@ Proof.
         -- discriminate.
       * (* (state, nil) with a live context cannot happen: a token is only returned from the
            cancelled branch of invoke, and the clock stays at 0 *)
-        exfalso. destruct (ms_clk st1) as [[|k]|]; simpl in *; discriminate.
-    + (* applied *)
+        exfalso. destruct (ms_clk st1) as [[[|k]|] fl]; unfold cancelled, tick in *; simpl in *; discriminate.
+    + (* applied, or the migration returned an error *)
+      destruct Hr as [[He Hr]|He]; subst e.
+      2:{ inversion H; subst. refine (conj _ (conj _ _)); auto. discriminate. }
+      cbn [negb] in H.
+      destruct (faulted (ms_clk st1)).
+      { inversion H; subst. simpl. refine (conj _ (conj _ _)); auto. discriminate. }
       simpl in H.
       assert (I2 : Inv (apply_bit i (ms_p st1))).
       { destruct I1 as [A B]. unfold Inv, pending in *. simpl.
@@ -165,6 +177,8 @@ Proof.
   { inversion H; subst; simpl. refine (conj _ (conj _ _)); auto. contradiction. discriminate. }
   destruct (vcontains _ _); cbn [negb] in H.
   2:{ inversion H; subst; simpl. refine (conj _ (conj _ _)); auto. contradiction. discriminate. }
+  destruct (faulted c).
+  { inversion H; subst; simpl. refine (conj _ (conj _ _)); auto. contradiction. discriminate. }
   assert (HI' : Inv (with_last T s)) by exact HI.
   destruct (bits_of (vdiff T (cur s))) eqn:Eb.
   - inversion H; subst; simpl. refine (conj _ (conj _ _)); auto.
@@ -210,8 +224,8 @@ Lemma resume_same_db_lemma :
   forall (bs : list boot) (s0 : @pstate DB Tok) st_ref st_fin,
   (forall j, lookup (inter s0) j = None) ->
   Forall (fun b => b_enabled b = enabled) bs ->
-  run_boot es fuel enabled None s0 = (st_ref, ROk) ->
-  run_boot es fuel enabled None (run_schedule es fuel bs s0) = (st_fin, ROk) ->
+  run_boot es fuel enabled no_intr s0 = (st_ref, ROk) ->
+  run_boot es fuel enabled no_intr (run_schedule es fuel bs s0) = (st_fin, ROk) ->
   pdb (ms_p st_fin) = pdb (ms_p st_ref) /\
   pdb (ms_p st_ref) =
     fold_left (fun d i => spec i d) (bits_of (vdiff (target_version es enabled) (cur s0))) (pdb s0) /\
@@ -223,9 +237,9 @@ Proof.
   assert (I0 : Inv DB Tok es enabled spec good R s0).
   { unfold Inv, pending, REF. split; auto.
     destruct (bits_of _); auto. split; auto. rewrite Hi. apply Hn. }
-  pose proof (run_boot_inv DB Tok es fuel enabled spec good Hn Hs R None s0 st_ref ROk I0 Href) as [[A1 _] [_ A3]].
+  pose proof (run_boot_inv DB Tok es fuel enabled spec good Hn Hs R no_intr s0 st_ref ROk I0 Href) as [[A1 _] [_ A3]].
   pose proof (run_schedule_inv DB Tok es fuel enabled spec good Hn Hs R bs s0 HF I0) as I1.
-  pose proof (run_boot_inv DB Tok es fuel enabled spec good Hn Hs R None _ st_fin ROk I1 Hfin) as [[B1 _] [_ B3]].
+  pose proof (run_boot_inv DB Tok es fuel enabled spec good Hn Hs R no_intr _ st_fin ROk I1 Hfin) as [[B1 _] [_ B3]].
   specialize (A3 eq_refl). specialize (B3 eq_refl). unfold pending in *.
   unfold REF, pending in A1, B1. rewrite A3 in A1. rewrite B3 in B1. simpl in A1, B1.
   refine (conj _ (conj _ (conj _ _))); auto. congruence.
